@@ -19,7 +19,8 @@ NEW_G = ["absent", "hardlink", "file"]
 NEW_L = ["absent", "sym-to-dir", "sym-dangling", "sym-to-file"]
 # ---- the pre-existing root
 PRE_D = ["absent", "dir-0700", "symlink-to-real-dir"]
-PRE_F = ["absent", "file", "symlink-to-file"]
+PRE_F = ["absent", "file", "symlink-to-file", "file-same-size-and-mtime-with-outside-hardlink", "dangling-symlink"]
+PRE_G = ["absent", "file"]
 PRE_S = ["absent", "dir-0711", "dangling-symlink"]
 PRE_L = ["absent", "file", "symlink"]
 
@@ -58,8 +59,10 @@ def build_image(img, c):
     for dp, dn, fn in os.walk(img):
         for n in dn + fn:
             p = os.path.join(dp, n)
+            mode = stat.S_IMODE(os.lstat(p).st_mode)
             os.lchown(p, 0, 0)
             if not os.path.islink(p):
+                os.chmod(p, mode)  # chown clears set-id bits
                 os.utime(p, (MT + len(n), MT + len(n)))
 
 
@@ -91,6 +94,19 @@ def build_root(root, c):
             os.utime(f, (MT - 100, MT - 100))
         elif pf == "symlink-to-file":
             os.symlink("../keep", f)
+        elif pf == "dangling-symlink":
+            os.symlink("../not-there", f)
+        elif pf != "absent":
+            # looks unchanged to a size/mtime comparison; an unrelated name shares its inode
+            with open(f, "w") as fh:
+                fh.write("BBBB")
+            os.chmod(f, 0o600)
+            os.utime(f, (MT + 1, MT + 1))
+            os.link(f, os.path.join(root, "outside-link"))
+        if PRE_G[c.get("pre_g", 0)] == "file":
+            with open(os.path.join(d, "g"), "w") as fh:
+                fh.write("old content of g")
+            os.chmod(os.path.join(d, "g"), 0o640)
     ps = PRE_S[c["pre_s"]]
     s = os.path.join(root, "s")
     if ps == "dir-0711":
